@@ -68,7 +68,9 @@ def _gen_atimer(r: Rng) -> Dict[str, Any]:
     segs = []
     for _ in range(r.range(3, 14)):
         segs.append([r.choice([1, 2, 3, 5, 8, 20, 60, r.range(1, 40)]), r.weighted([(0, 4), (1, 1), (2, 3)])])
-    return {"kind": "atimer", "exec": "rs-async-timer", "cfg": {"enabled": r.chance(7, 8), "mti": mti, "sti": sti}, "segs": segs}
+    # the task is started either for ever (run) or for a fixed number of cycles covering the whole scenario (run_for)
+    return {"kind": "atimer", "exec": "rs-async-timer",
+            "cfg": {"enabled": r.chance(7, 8), "mti": mti, "sti": sti, "bounded": r.child("entry").chance(1, 3)}, "segs": segs}
 
 
 def _check_atimer(scn: Dict[str, Any], hist: Dict[str, Any]) -> List[Dict[str, Any]]:
@@ -99,11 +101,11 @@ def _check_atimer(scn: Dict[str, Any], hist: Dict[str, Any]) -> List[Dict[str, A
             probes["off_segment"] = probes.get("off_segment", 0) + 1
             if isr & 3:
                 V("off_timer_runs", k, f"timer status bits {isr & 3:#x} raised while powered off (cycles {clock + 1}..{c1})",
-                  what="fired", path="async_timer_task")
+                  what="fired", path="async_timer_task", entry="run_for" if cfg.get("bounded") else "run")
             for name in ("MTI", "STI"):
                 if cfg["enabled"] and period[name] > 0 and got_next[name] != nxt[name]:
                     V("off_timer_runs", k, f"{name} target moved {nxt[name]} -> {got_next[name]} while powered off",
-                      what="target_moved", path="async_timer_task")
+                      what="target_moved", path="async_timer_task", entry="run_for" if cfg.get("bounded") else "run")
                     nxt[name] = got_next[name]
         else:
             fired = 0
